@@ -70,6 +70,68 @@ def sdeint_tree_last_step():
     return out
 
 
+def work_of_one_call(ctx, quick):
+    """(1) TLC: at resolution R the single call Query(a, a + 1 tick) right after the warm-up creates exactly 4R - 2 tree
+    nodes (WorkInv is violated with WorkCap = 4R - 3 and holds with 4R - 2): the work of one call is linear in
+    (t1 - t0) / (tb - ta) whatever the caller did before - known finding K9.
+    (2) binding: the real object, same history, splits exactly 2R - 1 nodes in that call (2 nodes per split).
+    (3) verdicts on the real object under a split budget: histories in which one call must stay cheap."""
+    fam = (8, 16) if quick else (8, 16, 32)
+    for R in fam:
+        cfg = B.Cfg(R, 2, 0, 1, False, 0, 0, 2, False, Fuel=24, MaxEval=0, MaxNodes=100000)
+        got = {}
+        for cap in (4 * R - 3, 4 * R - 2):
+            res = tlc.run("BrownianWork", timeout=900, workers=8, cfg_text=(
+                "SPECIFICATION Spec\n" + cfg.constants_cfg() + f"CONSTANT WorkCap = {cap}\nINVARIANT WorkInv\n"
+                "CONSTRAINT Bounded\nCHECK_DEADLOCK FALSE\n"))
+            ctx.add_tlc(res, f"BrownianWork R={R} WorkCap={cap}: nodes created by the first counted call")
+            got[cap] = res.violated
+        if got[4 * R - 3] != "WorkInv" or got[4 * R - 2] is not None:
+            ctx.drift(f"BrownianWork R={R}: expected the maximum of 4R-2 nodes in one call, TLC says {got}")
+        worst = 0
+        for a in range(R):
+            o = P.work_per_call(t1=float(R), cache_size=1, warm=(100, 0.0), whole_warm=True, query=(float(a), float(a + 1)))
+            worst = max(worst, o["splits"])
+        ctx.case(("work-model", R), sample=dict(resolution=R, model_nodes=4 * R - 2, real_splits=worst))
+        if 2 * worst != 4 * R - 2:
+            ctx.drift(f"work of the first counted call at resolution {R}: model creates {4 * R - 2} nodes, the real object "
+                      f"splits {worst} times")
+    # histories: (trigger, kwargs).  "short_query_after_warmup" is K9; in every other history one call needs a handful
+    # of splits on the unchanged code
+    tiny = 2.0 ** -30
+    n10 = 2.0 ** -10
+    hist = [("short_query_after_warmup", dict()),
+            ("short_query_after_warmup", dict(cache_size=None)),
+            ("short_query_after_warmup", dict(cache_size=0, query=(0.5, 0.5 + 2.0 ** -24))),
+            ("short_query_after_warmup", dict(pre=((0.25, 0.25 + n10), (0.5, 0.5 + n10), (0.625, 0.625 + tiny), (0.75, 0.75 + tiny)),
+                                              query=(0.875, 0.875 + tiny))),
+            ("short_query_during_warmup", dict(warm=(0, 0.0))),
+            ("short_query_during_warmup", dict(warm=(99, n10))),
+            ("short_query_with_dt_hint", dict(dt=n10)),
+            ("short_query_below_tolerance", dict(tol=2.0 ** -12)),
+            ("short_query_dyadic_tree", dict(halfway=True, tol=2.0 ** -12)),
+            ("query_of_usual_length", dict(query=(0.5, 0.5 + n10)))]
+    for trig, kw in hist:
+        o = P.work_per_call(**kw)
+        ctx.case(("work", trig, str(sorted(kw.items(), key=str))), sample=dict(trigger=trig, history=kw, result=o))
+        if o["outcome"] != "ok":
+            ctx.violation(dict(kind="work_per_call", trigger=trig, outcome=o["outcome"]),
+                          f"one call after the history {kw or 'default'} did not return normally: {o['outcome']} after "
+                          f"{o['splits']} splits (budget 50000; the tree is re-shaped with the length of the current "
+                          f"query)", replay=dict(work=kw))
+    # sdeint with its default Brownian motion: adaptive from a tiny initial step; a long horizon
+    sd = [dict(ts=[0.0, 1.0], dt=1e-9, adaptive=True, dt_min=1e-10)]
+    if not quick:
+        sd.append(dict(ts=[0.0, 1000.0], dt=2.0 ** -6, adaptive=True, dt_min=1e-6, rtol=1e-2, atol=1e-2))
+    for kw in sd:
+        o = P.sdeint_default_bm_work(**kw)
+        ctx.case(("work-sdeint", str(sorted(kw.items(), key=str))), sample=dict(sdeint=kw, result=o))
+        if o["outcome"] != "ok":
+            ctx.violation(dict(kind="work_per_call", trigger="sdeint_default_bm", outcome=o["outcome"]),
+                          f"sdeint(bm=None, {kw}) did not return normally: {o['outcome']} after {o['splits']} splits",
+                          replay=dict(work_sdeint=kw))
+
+
 def sys_run(ctx, N, warm, cs, legacy, qstep=1, sub=1024):
     """BrownianSys: solver-shaped history over N ticks (one deterministic behaviour of 2N steps)."""
     cfg = B.Cfg(N, sub, 0, cs, False, 0, warm, qstep * sub, False, Fuel=6 * N + 40, MaxEval=10 ** 6, MaxNodes=10 ** 6,
@@ -236,6 +298,9 @@ def run(ctx):
         elif r["outcome"] != "ok" and got != r["outcome"]:
             ctx.drift(f"constructor refuses {c} with {got}, documented {r['outcome']}")
 
+    # ---- the work of ONE call (spec/BrownianWork.tla) --------------------------------------------------
+    work_of_one_call(ctx, quick)
+
     # ---- sdeint ------------------------------------------------------------------------------------
     for n in ([16000] if quick else [16000, 50000]):
         exc = sdeint_default_bm(n)
@@ -268,6 +333,15 @@ def replay(path):
                              r.get("levy", "space-time"))
         print(f)
         return 1 if f else 0
+    if "work" in r:
+        kw = {k: (tuple(map(tuple, v)) if k == "pre" else tuple(v) if isinstance(v, list) else v) for k, v in r["work"].items()}
+        o = P.work_per_call(**kw)
+        print(o)
+        return 0 if o["outcome"] == "ok" else 1
+    if "work_sdeint" in r:
+        o = P.sdeint_default_bm_work(**r["work_sdeint"])
+        print(o)
+        return 0 if o["outcome"] == "ok" else 1
     if "nsteps" in r:
         e = sdeint_default_bm(r["nsteps"])
         print(e)
